@@ -11,6 +11,8 @@
                        WSGIWrapper.run_app sends every ASGI message through, from its thread) returns only after the send has
                        completed: asyncio `_call_soon` = `run_coroutine_threadsafe(func(*args), self._loop)` followed by
                        `.result()`, trio `trio.from_thread.run`; the `sync_spawn` next to it must be the executor / to_thread
+  asyncioMiddlewareCallSoonWaits / trioMiddlewareCallSoonWaits
+                       the same for the pair the WSGI middleware classes (middleware/wsgi.py) hand to WSGIWrapper.__call__
   fromObjectFilter     the conjuncts of the filter in `Config.from_object`'s dict comprehension (which attributes of the
                        object are dropped before `from_mapping`)
   redirectPathSource   the scope key `HTTPToHTTPSRedirectMiddleware._new_url` builds the path of the Location from
@@ -117,6 +119,56 @@ def call_soon_waits(src: Path, ex: Any) -> Optional[dict]:
     else:
         ex.fail("trioCallSoonWaits", f"_handle is given call_soon=`{cs}`")
         return None
+    # the WSGI middleware classes (middleware/wsgi.py) build their own pair for WSGIWrapper.__call__(scope, receive, send, sync_spawn, call_soon)
+    tree = ex.parse(src / "middleware" / "wsgi.py")
+    for key, cls in (("asyncioMiddleware", "AsyncioWSGIMiddleware"), ("trioMiddleware", "TrioWSGIMiddleware")):
+        item = f"{key}CallSoonWaits"
+        fn = ex.find_def(tree, cls, "__call__")
+        if fn is None:
+            ex.fail(item, f"{cls}.__call__ not found")
+            return None
+        calls = [n for n in ast.walk(fn) if isinstance(n, ast.Call) and _norm(n.func) == "self.wsgi_app"]
+        awaited = [n for n in ast.walk(fn) if isinstance(n, ast.Await) and n.value in calls]
+        if len(calls) != 1 or len(awaited) != 1 or len(calls[0].args) != 5 or calls[0].keywords \
+                or [_norm(a) for a in calls[0].args[:3]] != ["scope", "receive", "send"]:
+            ex.fail(item, f"{cls}.__call__: expected one `await self.wsgi_app(scope, receive, send, <sync_spawn>, <call_soon>)`")
+            return None
+        spawn, soon = _norm(calls[0].args[3]), _norm(calls[0].args[4])
+        if key == "asyncioMiddleware":
+            loops = [s_ for s_ in fn.body if isinstance(s_, ast.Assign) and len(s_.targets) == 1 and isinstance(s_.targets[0], ast.Name)
+                     and _norm(s_.value) in ("asyncio.get_event_loop()", "asyncio.get_running_loop()")]
+            inner = [n for n in fn.body if isinstance(n, ast.FunctionDef) and n.name == soon]
+            if len(loops) != 1 or len(inner) != 1:
+                ex.fail(item, f"{cls}.__call__: expected `<loop> = asyncio.get_event_loop()` and one nested `{soon}`")
+                return None
+            lv = loops[0].targets[0].id     # type: ignore
+            if spawn != f"partial({lv}.run_in_executor, None)":
+                ex.fail(item, f"WSGIWrapper is given sync_spawn=`{spawn}`")
+                return None
+            a = inner[0].args
+            if [x.arg for x in a.args] != ["func"] or a.vararg is None or a.vararg.arg != "args" or a.kwonlyargs or a.kwarg or a.defaults:
+                ex.fail(item, f"`{soon}` is not `(func, *args)`")
+                return None
+            sched = f"asyncio.run_coroutine_threadsafe(func(*args), {lv})"
+            body = [_norm(st) for st in inner[0].body if not (isinstance(st, ast.Expr) and isinstance(st.value, ast.Constant))]
+            if body in ([f"future = {sched}", "return future.result()"], [f"return {sched}.result()"]):
+                out[key] = True
+            elif body in ([f"return {sched}"], [sched], [f"future = {sched}", "return future"]):
+                out[key] = False
+            else:
+                ex.fail(item, f"unrecognised `{soon}` body {body}")
+                return None
+        else:
+            if spawn != "trio.to_thread.run_sync":
+                ex.fail(item, f"WSGIWrapper is given sync_spawn=`{spawn}`")
+                return None
+            if soon == "trio.from_thread.run":
+                out[key] = True
+            elif soon == "trio.from_thread.run_sync":
+                out[key] = False
+            else:
+                ex.fail(item, f"WSGIWrapper is given call_soon=`{soon}`")
+                return None
     return out
 
 
@@ -217,7 +269,10 @@ def run(src: Path, ex: Any) -> dict:
         f"def wsgiBodyBinding : BodyBinding := .{b}\n\n"
         "/-- `call_soon(send, message)` returns only after the send completed (asyncio/task_group.py, trio/task_group.py) -/\n"
         f"def asyncioCallSoonWaits : Bool := {str(cs['asyncio']).lower()}\n"
-        f"def trioCallSoonWaits : Bool := {str(cs['trio']).lower()}", "WsgiSites")
+        f"def trioCallSoonWaits : Bool := {str(cs['trio']).lower()}\n"
+        "/-- the same for the pair `AsyncioWSGIMiddleware` / `TrioWSGIMiddleware` (middleware/wsgi.py) hand to WSGIWrapper -/\n"
+        f"def asyncioMiddlewareCallSoonWaits : Bool := {str(cs['asyncioMiddleware']).lower()}\n"
+        f"def trioMiddlewareCallSoonWaits : Bool := {str(cs['trioMiddleware']).lower()}", "WsgiSites")
     ex.CURRENT[0] = "ConfigSites"
     f = from_object_filter(src, ex)
     files["ConfigSites"] = _file(
